@@ -13,7 +13,7 @@ import (
 
 // C06 — cursor and selection stay inside the buffer; movements never edit.
 
-const c06Rule = "editor states reached by generated scripts (C01 alphabet: typing incl. multi-byte, history recall of multi-line / multi-byte entries, kills, mode switches, vi operators, visual mode, searches, menus) then ONE named movement/copy command (every command the library documents as movement or copy: forward/backward-char/word, shell words, beginning/end-of-line, screen lines, all vi-* motions, vi-match, vi-goto-column, vi-first-print, marks, character searches with an argument key, copy-region-as-kill, copy-backward/forward-word, vi-yank-to + motion, vi-yank-whole-line, select-* text objects) with a numeric argument from {none, 2, 3, 12, 0, -, -2, 999}, then accept; oracle: (a) at EVERY main-loop input wait 0 <= pos <= len, in a vi command keymap (isearch aside) the cursor is on a character unless the buffer or its line is empty, an active selection is (-1,-1) or 0 <= b <= e <= len; (b) a line returned without error by accept-line delivered as its own read equals the buffer at the preceding wait; (c) the named command leaves the buffer text unchanged; non-trivial = command ran on a multi-line or multi-byte buffer, or with a numeric argument, or in vi command/visual mode; distinct = hash of the case"
+const c06Rule = "editor states reached by generated scripts (C01 alphabet: typing incl. multi-byte, history recall of multi-line / multi-byte entries, kills, mode switches, vi operators, visual mode, searches, menus) then ONE named movement/copy command (copies in vi command mode also into a named register and then once more appending to it; one case in five starts from a buffer that is a proper prefix of a history entry) (every command the library documents as movement or copy: forward/backward-char/word, shell words, beginning/end-of-line, screen lines, all vi-* motions, vi-match, vi-goto-column, vi-first-print, marks, character searches with an argument key, copy-region-as-kill, copy-backward/forward-word, vi-yank-to + motion, vi-yank-whole-line, select-* text objects) with a numeric argument from {none, 2, 3, 12, 0, -, -2, 999}, then accept; oracle: (a) at EVERY main-loop input wait 0 <= pos <= len, in a vi command keymap (isearch aside) the cursor is on a character unless the buffer or its line is empty, an active selection is (-1,-1) or 0 <= b <= e <= len; (b) a line returned without error by accept-line delivered as its own read equals the buffer at the preceding wait; (c) the named command leaves the buffer text unchanged; non-trivial = command ran on a multi-line or multi-byte buffer, or with a numeric argument, or in vi command/visual mode; distinct = hash of the case"
 
 var c06Commands = []string{
 	"forward-char", "backward-char", "forward-word", "backward-word", "shell-forward-word", "shell-backward-word", "beginning-of-line", "end-of-line",
@@ -35,6 +35,7 @@ type C06Case struct {
 	Count     string      `json:"count,omitempty"`
 	Arg       string      `json:"arg,omitempty"`
 	Motion    string      `json:"motion,omitempty"` // vi-yank-to
+	Reg       string      `json:"reg,omitempty"`    // vi command mode: "" | "a" (named register) | "aA" (then once more, appending to it)
 }
 
 func genC06(t *rapid.T, e *Env) *C06Case {
@@ -53,6 +54,60 @@ func genC06(t *rapid.T, e *Env) *C06Case {
 		{"line one\n\nline three", "\n", "tail\n"}}).Draw(t, "hist")
 	c.Multiline = rapid.SampledFrom([]string{"", "backslash"}).Draw(t, "multiline")
 	c.Steps = genScript(t, e, 0, 12)
+
+	// a buffer that is a proper prefix of a history entry, cursor on or after its
+	// last character (what history-based suggestions key on)
+	if len(c.Hist) > 0 && rapid.IntRange(0, 4).Draw(t, "prefixstate") == 0 {
+		entry := []rune(strings.SplitN(rapid.SampledFrom(c.Hist).Draw(t, "entry"), "\n", 2)[0])
+
+		if len(entry) > 1 {
+			n := rapid.IntRange(1, len(entry)-1).Draw(t, "cut")
+			c.Steps = []Step{{Keys: enc([]byte(string(entry[:n]))), Note: "prefix of a history entry"}}
+
+			switch rapid.IntRange(0, 2).Draw(t, "then") {
+			case 1:
+				c.Steps = append(c.Steps, Step{Cmd: "backward-char"})
+			case 2:
+				if c.Mode == "vi" {
+					c.Steps = append(c.Steps, Step{Cmd: "vi-movement-mode"})
+				}
+			}
+		}
+	}
+
+	c.Reg = rapid.SampledFrom([]string{"", "", "a", "aA", "aA"}).Draw(t, "reg")
+
+	// a recalled multi-line entry with the cursor moved to an upper line
+	multi := false
+
+	for _, h := range c.Hist {
+		multi = multi || strings.Contains(h, "\n")
+	}
+
+	if multi && rapid.IntRange(0, 3).Draw(t, "multistate") == 0 {
+		c.Steps = nil
+
+		for i, n := 0, rapid.IntRange(1, len(c.Hist)).Draw(t, "recall"); i < n; i++ {
+			c.Steps = append(c.Steps, Step{Cmd: "previous-history"})
+		}
+
+		if c.Mode == "vi" && rapid.Bool().Draw(t, "cmdmode") {
+			c.Steps = append(c.Steps, Step{Cmd: "vi-movement-mode"})
+		}
+
+		for i, n := 0, rapid.IntRange(0, 2).Draw(t, "up"); i < n; i++ {
+			c.Steps = append(c.Steps, Step{Cmd: "up-line-or-history"})
+		}
+
+		for i, n := 0, rapid.IntRange(0, 3).Draw(t, "left"); i < n; i++ {
+			c.Steps = append(c.Steps, Step{Cmd: "backward-char"})
+		}
+	}
+
+	// copies are few among the commands: give them a quarter of the cases
+	if rapid.IntRange(0, 3).Draw(t, "copycase") == 0 {
+		c.Cmd = rapid.SampledFrom([]string{"copy-region-as-kill", "copy-backward-word", "copy-forward-word", "vi-yank-whole-line", "vi-yank-to"}).Draw(t, "copycmd")
+	}
 	c.Cmd = rapid.SampledFrom(c06Commands).Draw(t, "cmd")
 	c.Count = rapid.SampledFrom([]string{"", "", "", "2", "3", "12", "0", "-", "-2", "999"}).Draw(t, "count")
 	c.Arg = rapid.SampledFrom([]string{"a", "o", " ", "x", "(", "\"", "e", "日"}).Draw(t, "arg")
@@ -148,6 +203,16 @@ func runC06(h *Harness, child *rig.Child, c *C06Case) (*Failure, bool) {
 		count = ""
 	}
 
+	reg := ""
+	if viCmd && (strings.Contains(c.Cmd, "yank") || strings.HasPrefix(c.Cmd, "copy-")) {
+		reg = c.Reg
+	}
+
+	if reg != "" {
+		d.send([]byte("\""))
+		d.send([]byte("a"))
+	}
+
 	if count != "" {
 		if viCmd {
 			d.send([]byte(count))
@@ -218,6 +283,41 @@ func runC06(h *Harness, child *rig.Child, c *C06Case) (*Failure, bool) {
 	if f := check(ev, "after "+ctx); f != nil {
 		f.Sig += ":" + c.Cmd
 		return f, true
+	}
+
+	// once more, appending to the same named register: still a copy
+	if reg == "aA" && ev.Kind == "main" && ev.Local == "" && ev.Main == "vi-command" {
+		d.send([]byte("\""))
+		d.send([]byte("A"))
+		ev2 := d.send([]byte(e.key(c.Cmd)))
+
+		if ev2 != nil && c.Cmd == "vi-yank-to" && ev2.Local == "vi-opp" {
+			for _, r := range c.Motion {
+				if ev2 = d.send([]byte(string(r))); ev2 == nil {
+					break
+				}
+			}
+		}
+
+		if d.fail != nil {
+			d.fail.Msg = fmt.Sprintf("command \"A %s after \"a %s on %q at %d: %s", c.Cmd, c.Cmd, before.Line, before.Pos, d.fail.Msg)
+			return d.fail, true
+		}
+
+		if ev2 == nil {
+			return nil, true
+		}
+
+		if ev2.Line != before.Line {
+			return failf("movement-edits", "c06:edits:"+c.Cmd, "%s, then the same command appending to register A, changed the buffer to %q", ctx, ev2.Line), true
+		}
+
+		if f := check(ev2, "after the appending copy following "+ctx); f != nil {
+			f.Sig += ":" + c.Cmd
+			return f, true
+		}
+
+		ev = ev2
 	}
 
 	nontrivial := count != "" || viCmd || strings.Contains(before.Line, "\n") || hasNonASCII(before.Line)
